@@ -56,6 +56,11 @@ def run(ctx) -> None:
     from .common import class_state_rule
 
     ctx.guard("C06.config", class_state_rule, "C06.config", ("BaseWorklist", "EvoWorklist", "FluentWorklist"), "max_volume / auto_split / device")
+    from . import objmodel
+
+    ctx.guard("C06.config", objmodel.worklist_model, "C06.config")
+    ctx.guard("C06.no-refusal", objmodel.unique_classes, "C06.no-refusal", ("InvalidOperationError",),
+              "`except robotools.InvalidOperationError` does not catch the refusal that the step guard raises (or catches something else)")
 
 
 def config(ctx) -> None:
